@@ -268,11 +268,12 @@ TRANSLATED = {
          'the generated definitions equal the fold model for every group order, k and fold; every group is in exactly one test fold, '
          'fold sizes differ by at most one, test and training groups are disjoint when k > 1; random splits are disjoint, complete '
          'and of the requested size for every shuffle outcome'),
- 'C06': ('_correct_1d, _dual_bootstrap, the statistic / p-value expression of t_test_0 and the loop body of t_test_nc (util/inference_util.py)',
+ 'C06': ('_correct_1d, _dual_bootstrap, the statistic / p-value expressions of t_test_0 and t_tests (from the vector of pairwise differences on) and the loop body of t_test_nc (util/inference_util.py)',
          'the generated dual-bootstrap combination never exceeds the two-factor variance (all inputs) and never falls below a '
          'corrected single-factor variance that is itself below it; the generated correction is the n/(n-1) factor with the smaller n; the '
          'generated against-zero p-values are 1 - cdf(evaluation / sqrt(max(variance, eps))), lie in [0,1] and never grow with the evaluation; the generated noise-ceiling p-value of entry i is 2 (1 - cdf |(evaluation_i - ceiling) / '
-         'sqrt(max(variance_i, eps))|), lies in [0,1], is 1 at the ceiling, equal at equal distance below and above it, and never larger further away'),
+         'sqrt(max(variance_i, eps))|), lies in [0,1], is 1 at the ceiling, equal at equal distance below and above it, and never larger further away; the generated pairwise matrix is the square form of '
+         '2 (1 - cdf |difference / sqrt(max(variance, eps))|): symmetric, 1 on the diagonal, in [0,1], entry (i,j) testing the difference stored for the pair (i,j)'),
  'C09': ('the index computations of bootstrap_sample / bootstrap_sample_rdm / bootstrap_sample_pattern (inference/bootstrap.py; the '
          'translator accepts only np.random.randint(0, len(select), size=len(select)) as the source of the draws)',
          'the returned index array is select[draws]: as many entries as distinct groups, each an existing group, a group occurring '
